@@ -179,6 +179,12 @@ func (w *World) flowClauses(id string, opts *RunOpts, ex *Extra) {
 // fieldNameOf: the struct field a loaded value comes from ("" if it is not a field load).
 func fieldNameOf(v ssa.Value) string {
 	switch x := v.(type) {
+	case *ssa.FieldAddr: // &x.F passed directly
+		if pt, ok := x.X.Type().Underlying().(*types.Pointer); ok {
+			if st, ok := pt.Elem().Underlying().(*types.Struct); ok {
+				return st.Field(x.Field).Name()
+			}
+		}
 	case *ssa.UnOp:
 		if fa, ok := x.X.(*ssa.FieldAddr); ok {
 			if pt, ok := fa.X.Type().Underlying().(*types.Pointer); ok {
